@@ -85,7 +85,7 @@ def _code_digest() -> str:
 
 
 def _table(ctx: Ctx):
-    from . import bounds, classlevel, expressions, foldeval, mutation, purity, sqlemit, structure, triviality
+    from . import bounds, classlevel, defassign, expressions, foldeval, mutation, purity, sqlemit, structure, triviality
 
     return [
         ("R09.1", lambda: mutation.r09_1_frozen(ctx)),
@@ -116,6 +116,9 @@ def _table(ctx: Ctx):
         ("F24", lambda: classlevel.r_no_tag_ordering(ctx, "F24")),
         ("F25", lambda: classlevel.r_self_attributes_defined(ctx, "F25")),
         ("F26", lambda: classlevel.r_public_defaults(ctx, "F26")),
+        ("F27", lambda: classlevel.r_no_shadowing_captures(ctx, "F27")),
+        ("F28", lambda: classlevel.r_no_double_formatting(ctx, "F28")),
+        ("F29", lambda: defassign.r_definite_assignment(ctx, "F29")),
         ("R15.1", lambda: structure.r15_1_rewriters_stop_at_locked(ctx)),
     ]
 
